@@ -4,11 +4,13 @@
 (* Depth.  The histories are executed step by step on the real controllers by         *)
 (* harness/cmd/reliable (p2p-replay).                                                 *)
 EXTENDS P2P, Json
-CONSTANTS Depth
+CONSTANTS Depth,
+          Dice      \* random walks: a fault step is kept with probability 1/Dice (spreads faults over the walk); 1 = always
 VARIABLE hist
 Rec(a, m, p, c, o) == [a |-> a, m |-> m, pc |-> p, cc |-> c, out |-> o]
 GInit == Init /\ hist = <<Rec(last.a, last.m, pc, cc, outs)>>
-GNext == Next /\ hist' = Append(hist, Rec(last'.a, last'.m, pc', cc', outs'))
+FaultGate == (last'.a \in {"Drop", "Dup"} /\ Dice > 1) => RandomElement(1..Dice) = 1
+GNext == Next /\ FaultGate /\ hist' = Append(hist, Rec(last'.a, last'.m, pc', cc', outs'))
 GSpec == GInit /\ [][GNext]_<<vars, hist>>
 Emit == (Len(hist) < Depth) \/ (PrintT(<<"BEHAVIOUR", ToJson(hist)>>) /\ FALSE)
 ====
